@@ -36,7 +36,11 @@ ASSUMPTIONS = [
 def case(draw):
     prof = draw(S.ranked_profile(1, 6, 8, tied=False, tie_rich=draw(st.integers(0, 2)) == 0))
     n = len(prof["cands"])
-    rule = draw(st.sampled_from(["STV", "STV", "STV", "IRV", "SequentialRCV"]))
+    rule = draw(st.sampled_from(["STV", "STV", "STV", "IRV", "SequentialRCV", "STV_random"]))
+    if rule == "STV_random":
+        # whole-ballot (random) transfer: tallies depend on the sample, so the rounds are judged on
+        # their recorded tallies (who may be elected / eliminated), not against predicted ones
+        prof = draw(S.ranked_profile(1, 6, 8, tied=False, weights="int", tie_rich=draw(st.booleans())))
     return {
         "cands": prof["cands"], "ballots": prof["ballots"], "rule": rule,
         "m": 1 if rule == "IRV" else draw(st.integers(1, n)),
@@ -113,7 +117,99 @@ def judge_run(out, case, res, model, sub="step"):
     return status
 
 
+def judge_decisions(out, case, res, thr, initial):
+    """Transfer-rule independent part of the statement: given the tallies RECORDED for round r-1,
+    round r must elect exactly the quota-reachers (one highest in one-by-one mode), or default-elect
+    when remaining == unfilled seats, or eliminate exactly one lowest candidate, ties decided by the
+    lowest initial first-place tally."""
+    states = res.states or []
+    sim, m = case["simultaneous"], case["m"]
+    n_elected = 0
+    for i in range(1, len(states)):
+        prev = {c: C.frac(v) for c, v in states[i - 1]["scores"].items()}
+        elected = sorted(c for g in states[i]["elected"] for c in g)
+        elim = sorted(c for g in states[i]["eliminated"] for c in g)
+        if not prev:
+            out.fail("decision", "round_without_tallies", f"round {i}")
+            return
+        reach = sorted(c for c, v in prev.items() if v >= thr)
+        seats = m - n_elected
+        where = f"round {i}: recorded tallies {prev}, threshold {thr}, {seats} seats left"
+        if reach:
+            if sim and len(reach) > seats:
+                return  # over-quota round (finding F10a): nothing defined
+            if sim:
+                if elected != reach or elim:
+                    out.fail("decision", "wrong_elected_set", f"{where}: quota-reachers {reach}, recorded elected {elected} eliminated {elim}")
+                    return
+            else:
+                mx = max(prev.values())
+                top = sorted(c for c, v in prev.items() if v == mx)
+                if len(elected) != 1 or elected[0] not in top or elim:
+                    out.fail("decision", "wrong_single_elected", f"{where}: highest {top}, recorded elected {elected} eliminated {elim}")
+                    return
+        elif len(prev) == seats:
+            if elected != sorted(prev) or elim:
+                out.fail("decision", "default_election_wrong", f"{where}: recorded elected {elected} eliminated {elim}")
+                return
+        else:
+            mn = min(prev.values())
+            low = [c for c, v in prev.items() if v == mn]
+            mi = min(initial[c] for c in low)
+            allowed = sorted(c for c in low if initial[c] == mi)
+            if elected or len(elim) != 1 or elim[0] not in allowed:
+                out.fail("decision", "wrong_elimination", f"{where}: lowest {sorted(low)} (initial tallies "
+                         f"{ {c: initial[c] for c in low} }), allowed {allowed}, recorded elected {elected} eliminated {elim}")
+                return
+        n_elected += len(elected)
+        # tallies of the next round are whole numbers of ballots and only list continuing candidates
+        nxt = {c: C.frac(v) for c, v in states[i]["scores"].items()}
+        gone = set(elected) | set(elim)
+        if set(nxt) != set(prev) - gone and nxt:
+            out.fail("decision", "tallied_candidates", f"round {i}: tallies for {sorted(nxt)}, continuing {sorted(set(prev) - gone)}")
+            return
+        if any(v != int(v) for v in nxt.values()):
+            out.fail("decision", "fractional_tally_under_whole_ballot_transfer", f"round {i}: {nxt}")
+            return
+        if nxt and states[i]["remaining"] != ref.Model.grouping(None, nxt):
+            out.fail("decision", "remaining_mismatch", f"round {i}: recorded {states[i]['remaining']} vs tallies {nxt}")
+            return
+    if res.exc is None and n_elected != m:
+        out.fail("decision", "ended_early", f"{n_elected} of {m} seats filled when the records end")
+
+
+def check_random(case):
+    out = Outcome()
+    cfg = {"m": case["m"], "quota": case["quota"], "simultaneous": case["simultaneous"],
+           "tiebreak": case["tiebreak"], "transfer": "random"}
+    prof = C.mk_profile(case["ballots"], case["cands"])
+    out.label("rule=STV_random", f"quota={case['quota']}", f"sim={case['simultaneous']}", f"tb={case['tiebreak']}")
+    model = ref.Model(case["ballots"], case["cands"], case["m"], case["quota"])
+    if model.threshold == 0:
+        out.excluded = "hare_threshold_zero"
+        return out
+    res = E.run("STV", prof, cfg, case["rng"])
+    if res.exc_type == "NoProgress":
+        out.fail("termination", "NoProgress", str(res.exc))
+        return out
+    if res.states:
+        s0 = {c: C.frac(v) for c, v in res.states[0]["scores"].items()}
+        if s0 != model.initial:
+            out.fail("decision", "round0_scores", f"recorded {s0}, first-place weights {model.initial}")
+        judge_decisions(out, case, res, model.threshold, model.initial)
+    if res.exc is None and res.election.threshold != model.threshold:
+        out.fail("threshold", "value", f"STV.threshold {res.election.threshold} != {model.threshold}")
+    rounds = len(res.states or []) - 1
+    kinds = {("e" if s["elected"] else "x") for s in (res.states or [])[1:]}
+    out.nontrivial = rounds >= 3 and kinds == {"e", "x"}
+    if out.nontrivial:
+        out.labels.insert(0, f"nt:STV_random:{case['quota']}:sim={case['simultaneous']}")
+    return out
+
+
 def check(case):
+    if case["rule"] == "STV_random":
+        return check_random(case)
     out = Outcome()
     rule = case["rule"]
     cfg = {"m": case["m"], "quota": case["quota"], "simultaneous": case["simultaneous"],
